@@ -35,7 +35,7 @@ func IsInvalidType(t types.Type) bool {
 
 // IsSliceType returns true if the given type is a slice type.
 func IsSliceType(t types.Type) bool {
-	_, ok := t.(*types.Slice)
+	_, ok := t.Underlying().(*types.Slice)
 	return ok
 }
 
@@ -100,7 +100,7 @@ func PkgOf(t types.Type) *types.Package {
 
 // SliceElement returns the type of the element in a slice type.
 func SliceElement(t types.Type) types.Type {
-	if slice, ok := t.(*types.Slice); ok {
+	if slice, ok := t.Underlying().(*types.Slice); ok {
 		return slice.Elem()
 	}
 	return nil
